@@ -19,6 +19,32 @@ NA = {
 
 CLAIMED = {
  # id: (level, technique, text, note, design_ref)
+ "C07": ("exploration",
+         "deterministic simulation: seeded and per-source exhaustive read partitions of the real ParseFile pipeline vs whole-input Parse",
+         "Differential oracle on one build: for every (source, partition into reads, gate schedule) the real ParseFile pipeline, run in a synctest bubble with a scripted reader, must give the same accept/reject, error text, diagnostics, listing/statistics and byte-identical dump as bcl.Parse of the whole source. Partitions: every single cut of sources up to 400 bytes (x4 zero-read placements), 1 byte/read, fixed, geometric, cuts inside tokens / multi-byte runes / two-character operators / escapes / around CR LF, real 4096-byte pages swept over every byte of a chosen token, zero-byte reads, data+EOF. Exhaustive per source for two-chunk partitions, sampled otherwise.",
+         "Trusts the in-memory Parse of the same build as reference (a defect common to both is invisible here; C08 has the absolute oracle for positions).",
+         "6/C07"),
+ "C08": ("exploration",
+         "deterministic simulation: planted diagnostics with generator-known offsets, delivered under seeded read partitions and through dump/load",
+         "Absolute oracle computed from the source bytes only: every 'line L:C' in every compile diagnostic, runtime error and warning is mapped back to a byte offset with the harness's own newline index and must (a) exist in the source, (b) end the quoted token text, (c) be a token end recorded by the generator, (d) equal the generator-known offset of a planted fault (11 runtime, 1 warning, 9 compile plant kinds), for Parse, for ParseFile under seeded partitions and schedules, and after Dump -> LoadProg -> Execute; the positions and line-table sections of the dump are decoded by the independent decoder and compared with token ends and newline offsets.",
+         "Trusts the harness's own token-offset bookkeeping; for compile diagnostics the property does not single out which token offends, so only membership in the offending statement is required.",
+         "6/C08"),
+ "C09": ("exploration",
+         "deterministic simulation: seeded read partitions of the stored dump through a simulated reader (incl. 1 byte/read, zero reads, data+EOF, boundary-targeted cuts)",
+         "Self-consistency on one build over programs whose constants, names and offsets straddle the varint size classes and the 4096-byte buffers: Dump succeeds; LoadProg of the bytes under any partition succeeds; dump(load(dump)) is identical; OptDisasm listings are identical; executing both programs gives identical output, warnings, blocks, binding and runtime error (position included). Every single cut is enumerated for dumps up to 512 bytes.",
+         "Round trip on one build cannot see symmetric format changes (C14 does).",
+         "6/C09"),
+ "C13": ("fault_enumeration",
+         "crash-point enumeration: torn write at every byte of the dump on a simulated disk, surviving prefix re-loaded under three deliveries; full magic and version sweeps",
+         "For every program of a seeded set, EVERY cut point 0..len-1 of its dump is enumerated (the real Dump writes to a simulated disk that fails at byte k and keeps exactly k bytes), and the prefix is given to the real LoadProg all at once, one byte per read, and under a seeded partition with zero-byte reads and data+EOF; all 65535 wrong magics and all 65534 unsupported (major, minor) pairs are enumerated on valid bodies. Oracle: non-nil error, no panic; a CPU loop is caught by the parent's wall-clock supervisor. Exhaustive per program, sampled over programs.",
+         "Programs are sampled; dumps up to about 12 KiB.",
+         "6/C13"),
+ "C14": ("other",
+         "stored-history replay (committed v1.1 corpus from the pinned build and a hand assembler) through a simulated reader + independent decoder of fresh dumps",
+         "The restart-after-upgrade scenario: 133 committed v1.1 files (73 written by the pinned build's Dump, 60 hand-assembled from the documented layout by an independent encoder; every opcode incl. NOP/LOOP, every constant kind incl. negative ints, bools, nil, NaN/Inf/-0, all bind nibbles, 1..4-byte varints, 0xFFFF jump, minor 0 and 1) are loaded by the current build under seeded read partitions and must reproduce the recorded output, warnings, blocks, binding, error and re-dump. Every fresh dump is parsed by an independent decoder (own sqlite4 varint, frozen tables), re-encoded identically, tiled into instructions, and compared with the OptDisasm listing offset by offset, mnemonic by mnemonic, constant by constant, jump by jump, position by position.",
+         "The recorded expectations are what the pinned build does; the decoder's tables are frozen from the v1.1 documentation in the repository.",
+         "6/C14"),
+
  "C11": ("exploration",
          "deterministic simulation: seeded seam scheduler over a testing/synctest bubble with scripted reader faults",
          "Seeded search over (input class x reader script with zero reads/EOF-with-data/errors/endless input x gate set x schedule bias x API variant x options); the real ParseFile/InterpretFile/UnmarshalFile goroutines run unmodified inside a synctest bubble whose root releases exactly one pending seam call per step. Termination is decided by quiescence (not a timeout), Close-exactly-once and read-after-close by the simulated file's counters, leaks by the bubble's own end-of-bubble check, error preference by identity of the injected error, bounded reading after a lexical failure by counting reads after the failing byte was delivered. Sampling, not proof.",
